@@ -281,7 +281,9 @@ def tasks(tier):
     ts += [('contracts.c12', f, ()) for f in ('pop_', 'popitem', 'setdefault', 'constructs_with_policy_none', 'found_if_present')]
     ts += [('contracts.c10', 'peekitem_task', ('C12', True)), ('contracts.c10', 'peekitem_task', ('C12', False)),
            ('contracts.iteration', 'iter_task', ('C12', True)), ('contracts.iteration', 'iter_task', ('C12', False))]
-    ts += [('contracts.traces', 'transact_block', ('C12',))]      # popitem / setdefault argue with 'one block is atomic'
+    ts += [('contracts.traces', 'transact_block', ('C12',))]
+    from contracts import c03
+    ts += c03.dependency_tasks('C12', ['get', 'set', 'add', 'pop', '__delitem__', '__contains__'], policy='none')   # an Index never evicts      # popitem / setdefault argue with 'one block is atomic'
     return ts
 
 
